@@ -23,4 +23,13 @@ theorem swim_checks (lag : Nat) :
 theorem tank_checks (lag : Nat) : (tankPolls.all fun (ph, n) => pollOK (tank lag) tankTimerReach ph n) = true :=
   (by decide +kernel : (tankPolls.all fun (ph, n) => pollOK (tank 0) tankTimerReach ph n) = true)
 
+
+/-- inside the polling phases with a time limit nothing but the poll itself touches the delayed call -/
+theorem limit_phase_checks (lag : Nat) :
+    ((tankPolls.take 2).all fun (ph, _) => noRearm (tank lag) tankTimerReach ph) = true ∧
+    noRearm (swim lag) swimTimerReach swimPolls[2].1 = true :=
+  (by decide +kernel :
+    ((tankPolls.take 2).all fun (ph, _) => noRearm (tank 0) tankTimerReach ph) = true ∧
+    noRearm (swim 0) swimTimerReach swimPolls[2].1 = true)
+
 end Poupool.Timing
